@@ -97,8 +97,7 @@ def main():
         target(data)
         if count["n"] % 500 == 0 or count["n"] >= total:
             finish()
-        if count["n"] >= total:
-            pio.cleanup()
+        # the scratch directory (corpus included) is removed by the parent process (run_fuzz_campaign)
 
     atheris.Setup(argv, counted)
     atheris.Fuzz()
